@@ -649,6 +649,31 @@ func main() {
 					submit("table", []piece{wf(frames.Frame{Body: rel, Kind: frames.KRelayed, Name: fmt.Sprintf("relayed-of-%d-bytes", size)}), wf(frames.Frame{Body: []byte{11}, Kind: frames.KList, Name: "list"})}, false)
 				}
 			}
+			// add-hardware-certificate requests that the shim refuses (not a certificate; a certificate whose key the
+			// underlying agent does not hold) or accepts, carrying a long comment of bytes that any quoting would expand
+			// (control bytes, invalid UTF-8) or of plain letters: each is answered once, and so is the listing behind it
+			{
+				pool := gen.Pool()
+				held, other := pool[0], pool[5]
+				certOf := func(k *gen.Key) *ssh.Certificate {
+					return gen.MakeCert(gen.CertSpec{Key: k, KeyID: gen.YSSHCAKeyID(gen.KeyIDSpec{HW: true, Touch: 3, TransID: "t", Prins: []string{"u"}}), ValidAfter: now - 100, ValidBefore: now + 100})
+				}
+				str := func(b []byte) []byte {
+					var l [4]byte
+					binary.BigEndian.PutUint32(l[:], uint32(len(b)))
+					return append(l[:], b...)
+				}
+				for ki, key := range []ssh.PublicKey{held.Pub, certOf(other), certOf(held)} {
+					for _, fill := range []struct {
+						b byte
+						n int
+					}{{0x01, 5 << 20}, {0xff, 6 << 20}, {'c', 15 << 20}, {0x00, 3 << 20}, {'"', 9 << 20}} {
+						b := append([]byte{31}, str(key.Marshal())...)
+						b = append(b, str(bytes.Repeat([]byte{fill.b}, fill.n))...)
+						submit("table", []piece{wf(frames.Frame{Body: b, Kind: frames.KAddHardCert, Name: fmt.Sprintf("add-hard-cert-%d-with-%d-byte-comment-of-0x%02x", ki, fill.n, fill.b)}), wf(frames.Frame{Body: []byte{11}, Kind: frames.KList, Name: "list"})}, false)
+					}
+				}
+			}
 			r.Extra("table_streams", idx)
 		}
 		// ---- seeded streams
